@@ -297,7 +297,9 @@ func runC10(rc *RunCtx) {
 		if lerr != nil {
 			// A failed attempt must leave nothing of itself running: the server has
 			// exactly the goroutines it had before the attempt.
-			if now := serverTasks(); len(now) != tasksBefore {
+			// (fewer would mean the previous configuration lost a serving loop, which
+			// the listening-set and key probes decide)
+			if now := serverTasks(); len(now) > tasksBefore {
 				rc.Failf(pfx+"serving-goroutines-differ", "%s: the server had %d goroutines before the failed attempt and has %d after it:%s", when, tasksBefore, len(now), describeTasks(now))
 			}
 		}
